@@ -69,6 +69,8 @@ func init() {
 		// a date-time field is the protocol decoding of its digits only if it is built as a civil time in the local zone
 		RuleZone(r, p, c)
 		RuleInstants(r, p)
+		// the bytes decoded are the bytes received: the driver returns buffer[0:n] of its last read, unmodified
+		RuleTransport(r, p, aspectSet{"T11": true})
 	}
 
 	checks["C03"] = func(r *Report, p *Program, tier string) {
@@ -90,6 +92,8 @@ func init() {
 		RuleK10Only(r, p, map[string]bool{"K10a": true})
 		// a malformed field makes the call fail: nested decode errors are propagated by the codec
 		RuleK5(r, c)
+		// a boolean byte other than 0/1 is a malformed field: the decoder rejects it (K3)
+		RuleK3(r, c)
 	}
 
 	checks["C04"] = func(r *Report, p *Program, tier string) {
@@ -164,7 +168,9 @@ func init() {
 		// is written by one goroutine while the other reads it
 		// ... and the shutdown order (signal the driver, await its loop, then return and close the pipe) is what keeps
 		// the close of the pipe from racing with a handler that is still sending on it
-		r.Only = map[string]bool{"LS1": true, "LS2": true, "LS5": true}
+		// ... and the driver closes 'done' only after its read loop has ended (LS6): closing it earlier lets Listen
+		// return, and close the pipe, while the loop can still hand an event to the handler
+		r.Only = map[string]bool{"LS1": true, "LS2": true, "LS5": true, "LS6": true}
 		RuleListen(r, p)
 		r.Only = nil
 	}
@@ -177,6 +183,7 @@ func init() {
 		// never gives up early: a reader leaves its loop only after a failed read (deadline, closed socket), not after
 		// some number of datagrams (RD)
 		RuleDelivered(r, p, false)
+		RuleF3(r, p) // ... and the broadcast-to loop returns only on a failed read or an accepted datagram
 		// the listener's goroutines: the consumer ends on every return of Listen (LS3), the driver's two goroutines end after the stop signal (LS6)
 		r.Only = map[string]bool{"LS3": true, "LS6": true}
 		RuleListen(r, p)
@@ -196,6 +203,9 @@ func init() {
 		RuleK4(r, c)
 		RuleEventLayout(r, c)
 		RuleF4(r, p)
+		// every field of a delivered event is the protocol decoding of its bytes: the date/time decoders parse
+		// with the layout their encoders format with (K10c)
+		RuleK10c(r, c)
 		RuleShareIn(r, p, aspectSet{"T8": true, "T7": true}, func(parent string) bool { return !returnsListName(p, parent) })
 	}
 
